@@ -43,14 +43,15 @@ theorem two_centres_wrong :
     simp [vadd, vzero, toSI, seg2, si, pos2] at this
   · simp [vadd, vzero, toSI, seg2]
 
-/-! ## A frame made from a re-framed orbit (open finding C18-asframe-reframed)
+/-! ## A frame made from a re-framed orbit (finding C18-asframe-reframed, fixed by commit 261fb0a): regression witness
 
 `orb = jpl.get_orbit(3)` (body 3 relative to 0), `orb.frame = <frame of 10>` in place (or `orb.copy(frame=…)`), then
-`orb.as_frame(7)`: `orbit2frame` hangs the new centre below the centre of the orbit's CURRENT frame (10) but its offset
-is `orb.propagate(date)`, which the propagator returns relative to ITS frame (0).  The hypothesis `AttOK` of
-`C18.spk_attached_frames` (`link = cen` in `C18.spk_as_frame`) cannot be dropped.  Replayed on the implementation by
-harness/props/C18.py (`oracle_histories`, family `spk-asframe-reframed-orbit`); proposed repair in
-proposed_fixes/C18-asframe-reframed.diff. -/
+`orb.as_frame(7)`: `orbit2frame` hangs the new centre below the centre of the orbit's CURRENT frame (10); its offset is
+`orb.propagate(date)`, which the propagator returns relative to ITS frame (0).  Before 261fb0a that vector was used as
+it is and the new frame was displaced by the vector between the two centres (this file then held the counter-witness
+`asframe_reframed_wrong`: 1 km instead of 0).  Now the centre remembers the frame of the link (`offset_frame`) and the
+propagated state is expressed in it: the model of the current code returns the chained vector.  Replayed on the
+implementation by harness/props/C18.py (`oracle_histories`, family `spk-asframe-reframed-orbit`). -/
 
 def kern3 : Pairs := [(0, 3), (0, 10)]
 
@@ -66,25 +67,41 @@ theorem asframe_reframed_consistent : Consistent kern3 seg3 pos3 := by
   simp only [kern3, List.mem_cons, Prod.mk.injEq, List.not_mem_nil, or_false] at h
   rcases h with ⟨rfl, rfl⟩ | ⟨rfl, rfl⟩ <;> (funext i; simp [seg3, pos3])
 
-/-- the new frame should be centred on body 3, which coincides with body 10: the offset is zero; the code's answer is
-1 km along x -/
-theorem asframe_reframed_wrong :
-    ∃ v, reframeA 8 kern3 attReframed seg3 7 10 vzero = .ok v ∧ v ≠ si (pos3 3 - pos3 10) ∧ v ⟨0, by omega⟩ = 1000 := by
-  obtain ⟨g, hb, hp⟩ : ∃ g, build 8 (linkHistA kern3 attReframed) = some g ∧ path 8 g 7 10 = .ok [7, 10] :=
-    ⟨_, rfl, by decide⟩
-  have hc : centerToA 8 kern3 attReframed seg3 7 10 = sumStepsA kern3 attReframed seg3 vzero [7, 10] := by
-    unfold centerToA; rw [hb]; simp only; rw [hp]
-  have hs : sumStepsA kern3 attReframed seg3 vzero [7, 10] = .ok (vadd vzero (toSI 1 (seg3 0 3))) := by
-    simp [sumStepsA, stepOffsetA, attFind, attReframed, propagate, kern3]
-  refine ⟨vadd vzero (toSI 1 (seg3 0 3)), ?_, ?_, ?_⟩
+/-- the new frame is centred on body 3, which coincides with body 10: the code answers, and its answer is the chained
+vector (zero) — through the nested conversion 0 → 10 of the propagated state -/
+theorem asframe_reframed_fixed :
+    ∃ v, reframeA 8 kern3 attReframed seg3 7 10 vzero = .ok v ∧ v = si (pos3 3 - pos3 10) ∧ v ⟨0, by omega⟩ = 0 := by
+  obtain ⟨g, hb, hp, hq⟩ : ∃ g, build 8 (linkHistA kern3 attReframed) = some g ∧ path 8 g 7 10 = .ok [7, 10] ∧
+      path 8 g 0 10 = .ok [0, 10] := ⟨_, rfl, by decide, by decide⟩
+  have hinner : centerWith 8 kern3 attReframed (stepOffsetD 8 kern3 attReframed seg3 1) 0 10
+      = .ok (vadd vzero (vneg (toSI 1 (seg3 0 10)))) := by
+    unfold centerWith; rw [hb]; simp only; rw [hq]
+    simp [sumWith, stepOffsetD, attFind, attReframed, provide, propCenter, propagate, kern3, negRes]
+  have hstep : stepOffsetA 8 kern3 attReframed seg3 7 10
+      = .ok (vadd (toSI 1 (seg3 0 3)) (vadd vzero (vneg (toSI 1 (seg3 0 10))))) := by
+    have h0 : attFind attReframed 7 10 = some ⟨7, 10, 3, 0⟩ := by simp [attFind, attReframed]
+    have h1 : kern3.contains (10, 7) = false := by decide
+    have h2 : propagate kern3 seg3 3 0 = .ok (toSI 1 (seg3 0 3)) := by simp [propagate, kern3]
+    show stepOffsetD 8 kern3 attReframed seg3 (attReframed.length + 1) 7 10 = _
+    have hlen : attReframed.length + 1 = 1 + 1 := rfl
+    rw [hlen, stepOffsetD, h1, h0]
+    simp only [Bool.false_eq_true, if_false, attOffset, h2, hinner]
+    simp
+  have hc : centerToA 8 kern3 attReframed seg3 7 10
+      = .ok (vadd vzero (vadd (toSI 1 (seg3 0 3)) (vadd vzero (vneg (toSI 1 (seg3 0 10)))))) := by
+    unfold centerToA centerWith; rw [hb]; simp only; rw [hp]
+    simp [sumWith, hstep]
+  have hval : ∀ i : Fin 6,
+      vadd vzero (vadd vzero (vadd (toSI 1 (seg3 0 3)) (vadd vzero (vneg (toSI 1 (seg3 0 10)))))) i = 0 := by
+    intro i; simp [vadd, vzero, vneg, toSI, seg3]
+  refine ⟨vadd vzero (vadd vzero (vadd (toSI 1 (seg3 0 3)) (vadd vzero (vneg (toSI 1 (seg3 0 10)))))), ?_, ?_, hval _⟩
   · unfold reframeA
     have h1 : hasFrameA kern3 attReframed 7 = true := by decide
     have h2 : hasFrameA kern3 attReframed 10 = true := by decide
-    rw [h1, h2, hc, hs]
-    simp [vadd_eq, vzero_eq]
-  · intro h
-    have := congrFun h ⟨0, by omega⟩
-    simp [vadd, vzero, toSI, seg3, si, pos3] at this
-  · simp [vadd, vzero, toSI, seg3]
+    rw [h1, h2, hc]
+    simp
+  · funext i
+    rw [hval i]
+    simp [si, pos3]
 
 end BeyondVerif.C18W
